@@ -10,6 +10,8 @@
   PiPack: one entry per block, all alike (`PiPack.shape`), so equal block counts give identically shaped indexes
   (`PiPack.shape_indistinguishable`).
   SSE1: array length, cell lengths, table size and entry lengths are functions of the configuration (`SSE1.shape`).
+  DP17: the arrays A_j (bucket count and byte length of every bucket) are a function of N and the configuration
+  (`DP17.arrays_shape`); the hash table is covered by the correspondence and the direct oracle.
   CT14: the whole index shape is `CT14.shapeFor cfg ⌈log2 N⌉` (`CT14.shape`).
   ANSS16: the whole index shape is `shapeFor cfg ⌈log2 N⌉` (`ANSS16.shape`): number of tables, entries per table and all
   lengths; the level-table bound that makes the padding sufficient (at most 2^(t+1-j) lists at level j) is part of it.
@@ -21,6 +23,7 @@ import SSEPyVerif.Proofs.Schemes.ChainCfg
 import SSEPyVerif.Proofs.Schemes.ANSS16Shape
 import SSEPyVerif.Proofs.Schemes.CT14Shape
 import SSEPyVerif.Proofs.Schemes.SSE1Shape
+import SSEPyVerif.Proofs.Schemes.DP17Shape
 namespace SSEPy.C05
 open SSEPy.Sch SSEPy.Sch.Chain
 
@@ -291,5 +294,25 @@ theorem SSE1.shape (raw : RawCfg) (cfg : SSE1Cfg) (hcfg : SSE1.cfgBuild raw = .o
   simp only [List.mem_map] at hx
   obtain ⟨c, hc, rfl⟩ := hx
   exact a2 c hc
+
+/-- DP17 (schemes/DP17/Pi), the arrays: for every level `j` of the index, `A_j` has one byte string per bucket —
+    `⌈(2N + 2^(j+1)) / 2^(j+1)⌉` of them — and bucket `x` is `cells(x) · param_identifier_cipher_len` bytes long, `cells` the
+    bucket sizes `_divide_to_buckets(2N + 2^(j+1), 2^(j+1))` gives: a function of `N` and the configuration.  What a bucket
+    holds does not show: stored entries + padding = cells is an invariant of `_Enc` (a chunk only goes to a bucket with at
+    least `2^j` free cells and has at most `2^j` entries).  Hypotheses: leaf laws, identifiers of the configured size, and
+    that no level occurs twice in the level list — a decidable condition on N and the configuration; it fails for N = 1
+    with param_L > 1 (levels [0, 0]), where the code pads level 0 twice and the theorem does not apply. -/
+theorem DP17.arrays_shape (raw : RawCfg) (cfg : DP17Cfg) (hcfg : DP17.cfgBuild raw = .ok cfg) (lv : Leaves) (hl : LeafLaws lv)
+    (k1 k2 k3 : Bytes) (db : DB) (t t' : Tape) (edb : DP17EDB)
+    (hs : DP17.setup cfg lv [k1, k2, k3] db t = .ok (edb, t'))
+    (hidl : ∀ p ∈ db, ∀ id ∈ p.2, (id.length : Int) = cfg.idSize)
+    (levels : List Int) (hlv : DP17.levelsOf cfg db.total = .ok levels) (hnd : levels.Nodup) :
+    ∀ j ∈ levels, ∃ arr, edb.A.lookup j = some arr ∧
+      arr.map List.length = (DP17.sizesOf db.total j).map (· * cfg.cipherLen) := by
+  obtain ⟨hplain, hlam, hclen⟩ := DP17.cfgBuild_ok cfg raw hcfg
+  exact DP17.setup_arrays_shape cfg lv
+    (fun key iv msg c hiv he => ske_dec_enc lv hl cfg.rnd hplain key iv msg c hiv he) hl.enc_len
+    (cfg.idSize + cfg.lambda).toNat hclen k1 k2 k3 db t t' edb hs
+    (fun p hp id hid => by have := hidl p hp id hid; omega) levels hlv hnd
 
 end SSEPy.C05
